@@ -92,11 +92,33 @@ def shift_table_rule(rep):
     rep.floor("C11.e", n, 3)
 
 
+def region_rule(rep, f):
+    rep.rule("C11.f", "matching stays inside the requested region: Context::fLength is the *length* of the region [fStart, fLimit) of "
+             "the target string, not a position; the matching routines bound every read by fLimit. Census over the library: "
+             "fLength is read only by Context's own constructor / assignment (copying it) — a matcher that compares an offset "
+             "with fLength reads past the region end whenever the region does not start at 0 (matches(s, start, end), tokenize, "
+             "replace on a tail)")
+    n, bad = 0, []
+    for x in f.kind("fld"):
+        if x["f"] == "RegularExpression::Context::fLength" and x["how"] == "read":
+            n += 1
+            if not x["_fn"]["q"].startswith("RegularExpression::Context::"):
+                bad.append((x["_fn"]["q"], x["_fn"]["file"], x.get("l", 0)))
+    lim = len([x for x in f.kind("fld") if x["f"] == "RegularExpression::Context::fLimit" and x["how"] == "read"
+               and x["_fn"]["q"].startswith("RegularExpression::match")])
+    rep.floor("C11.f", lim, 10)
+    rep.ob("C11.f", "Context::fLength", not bad,
+           "read only inside Context (%d copies); %d region-end (fLimit) reads in the matching routines" % (n, lim) if not bad else
+           "%s (line %s) reads Context::fLength as a bound: the region length is not a position in the target string" % (bad[0][0], bad[0][2]),
+           "%s:%s" % (bad[0][1], bad[0][2]) if bad else "src/xercesc/util/regx/RegularExpression.cpp")
+
+
 def run(rep):
     f = core.library_facts()
     rep.units.update(os.path.relpath(t, core.REPO) for t in f.tus)
     block_rule(rep)
     shift_table_rule(rep)
+    region_rule(rep, f)
     rep.rule("C11.d", "pure matching: RegularExpression::matches/tokenize/replace and every RegularExpression member they reach assign no "
              "member of the compiled expression — the answer cannot depend on earlier uses of the same compiled expression")
     C17.pure_match_rule(rep, f, "C11.d")
